@@ -322,18 +322,25 @@ pub fn float_text(v: &Value) -> Option<String> {
 // ---------------------------------------------------------------------------------------------
 pub fn colref(s: &S) -> ColumnRef {
     let l = s.args();
+    // the enum variant, or the IntoColumnRef conversion of an identifier / tuple / Asterisk
+    let conv = shash(s) % 2 == 1;
     match s.head() {
-        "col" => match l.len() {
-            1 => ColumnRef::Column(a(&hx(&l[0])).into_iden()),
-            2 => ColumnRef::TableColumn(a(&hx(&l[0])).into_iden(), a(&hx(&l[1])).into_iden()),
-            3 => ColumnRef::SchemaTableColumn(
+        "col" => match (l.len(), conv) {
+            (1, false) => ColumnRef::Column(a(&hx(&l[0])).into_iden()),
+            (1, true) => a(&hx(&l[0])).into_column_ref(),
+            (2, false) => ColumnRef::TableColumn(a(&hx(&l[0])).into_iden(), a(&hx(&l[1])).into_iden()),
+            (2, true) => (a(&hx(&l[0])), a(&hx(&l[1]))).into_column_ref(),
+            (3, false) => ColumnRef::SchemaTableColumn(
                 a(&hx(&l[0])).into_iden(),
                 a(&hx(&l[1])).into_iden(),
                 a(&hx(&l[2])).into_iden(),
             ),
+            (3, true) => (a(&hx(&l[0])), a(&hx(&l[1])), a(&hx(&l[2]))).into_column_ref(),
             _ => panic!("col arity"),
         },
+        "star" if conv => Asterisk.into_column_ref(),
         "star" => ColumnRef::Asterisk,
+        "tstar" if conv => (a(&hx(&l[0])), Asterisk).into_column_ref(),
         "tstar" => ColumnRef::TableAsterisk(a(&hx(&l[0])).into_iden()),
         _ => panic!("colref"),
     }
@@ -342,7 +349,12 @@ pub fn colref(s: &S) -> ColumnRef {
 pub fn expr(s: &S) -> SimpleExpr {
     let l = s.args();
     match s.head() {
-        "col" | "star" | "tstar" => SimpleExpr::Column(colref(s)),
+        "col" | "star" | "tstar" => match shash(s) % 3 {
+            1 => Expr::col(colref(s)).into(),
+            2 if s.head() == "star" => Expr::asterisk().into(),
+            2 if s.head() == "tstar" => Expr::table_asterisk(a(&hx(&l[0]))).into(),
+            _ => SimpleExpr::Column(colref(s)),
+        },
         // Every node that has a public constructor / method is built, for part of the cases, THROUGH that
         // constructor instead of the enum variant (the choice is a hash of the node's text, so a case always
         // takes the same path): the model is indifferent, so a constructor that builds something else than the
@@ -434,6 +446,11 @@ pub fn expr(s: &S) -> SimpleExpr {
             assert!(l.len() == 2, "custe1 takes exactly one expression");
             Expr::cust_with_expr(hx(&l[0]), expr(&l[1]))
         }
+        "kw" if shash(s) % 2 == 1 && matches!(l[0].atom(), "cdate" | "ctime" | "cts") => match l[0].atom() {
+            "cdate" => Expr::current_date().into(),
+            "ctime" => Expr::current_time().into(),
+            _ => Expr::current_timestamp().into(),
+        },
         "kw" => SimpleExpr::Keyword(match l[0].atom() {
             "null" => Keyword::Null,
             "cdate" => Keyword::CurrentDate,
